@@ -91,6 +91,8 @@ static void submit(dispatch_queue_t q, int path, struct probe *p){
   case 2: dispatch_barrier_sync_f(q,p,probe_fn); break;
   case 3: dispatch_async_and_wait_f(q,p,probe_fn); break;
   case 4: dispatch_apply_f(2,q,p,probe_apply); break;
+  case 7: dispatch_apply_f(1,q,p,probe_apply); break;                                             // a single iteration: the apply runs on the calling thread
+  case 8: dispatch_apply_f(1,(dispatch_queue_t)dispatch_get_global_queue(0,0),p,probe_apply); break;   // ... onto a global queue: the item's chain is that root queue alone
   case 5: { dispatch_semaphore_t s=dispatch_semaphore_create(0); dispatch_barrier_async(q,^{ probe_fn(p); dispatch_semaphore_signal(s); }); dispatch_semaphore_wait(s,DISPATCH_TIME_FOREVER); dispatch_release(s); break; }
   default: { dispatch_semaphore_t s=dispatch_semaphore_create(0); dispatch_async(q,^{ probe_fn(p); dispatch_semaphore_signal(s); }); dispatch_semaphore_wait(s,DISPATCH_TIME_FOREVER); dispatch_release(s); break; }
   } }
